@@ -30,8 +30,8 @@ type doc struct {
 	body     []byte
 }
 
-func (d doc) id() seq.ID       { return seq.ID{MID: seq.MID(d.mid), RID: seq.RID(d.rid)} }
-func (d doc) idStr() string    { return fmt.Sprintf("%d.%d", d.mid, d.rid) }
+func (d doc) id() seq.ID    { return seq.ID{MID: seq.MID(d.mid), RID: seq.RID(d.rid)} }
+func (d doc) idStr() string { return fmt.Sprintf("%d.%d", d.mid, d.rid) }
 func (d doc) has(t int) bool {
 	for _, x := range d.toks {
 		if x == t {
@@ -166,20 +166,21 @@ func (q *query) ast() (*parser.ASTNode, error) {
 }
 
 type reader struct {
-	idx       int
-	t         *thread
-	search    bool
-	qs        string
-	q         *query
-	from, to  uint64
-	ids       []doc // fetch targets
-	kind      int   // 0 empty 1 active 2 sealed
-	inAc      bool  // its steps are part of the aconc trace
-	leafSeen  int   // query leaves already reported
-	result    []seq.ID
-	searchErr string
-	fetched   []string // F N P per id
-	fetchBad  []string // description of wrong bytes
+	idx           int
+	t             *thread
+	search        bool
+	qs            string
+	q             *query
+	from, to      uint64
+	ids           []doc // fetch targets
+	kind          int   // 0 empty 1 active 2 sealed
+	inAc          bool  // its steps are part of the aconc trace
+	leafSeen      int   // query leaves already reported
+	fieldsSeen    int   // dictionary reads started (one per leaf)
+	result        []seq.ID
+	searchErr     string
+	fetched       []string     // F N P per id
+	fetchBad      []string     // description of wrong bytes
 	acquiredAfter map[int]bool // bulks whose AppendIDs had happened when the provider was created
 }
 
@@ -763,6 +764,18 @@ func (w *world) stepRdr(t *thread) error {
 		if r.inAc {
 			w.acLabel(fmt.Sprintf("rR/%d", r.idx), ev.args[0]-1)
 		}
+	case "c07.rdr.fields":
+		// a scheduling point in front of the leaf's dictionary read (GetTIDsByField); the leaf itself (dictionary read,
+		// token lookup, GetLIDs, inverseLIDs) is the uninterrupted segment up to c07.rdr.leaf / the end of Search.
+		// Leaves before this one whose token did not exist produced no c07.rdr.leaf: they were read (as empty) in the
+		// segment that just ended, so they are reported now.
+		if r.inAc {
+			for r.leafSeen < r.fieldsSeen {
+				r.leafSeen++
+				w.acLabel(fmt.Sprintf("rl/%d", r.idx), 0)
+			}
+		}
+		r.fieldsSeen++
 	case "c07.rdr.leaf":
 		if r.inAc {
 			w.leavesUpTo(r, w.tokenOfTID(uint32(ev.args[0])), ev.args[1])
